@@ -58,6 +58,13 @@ func vpCheckRelease(rels []vpRelease, n vpRelease) {
 // C04-H1: k arbitrary signing requests against the real FilePV, with restarts between requests and
 // (engine) crashes at every file operation inside the sign-state save.
 func vpC04Signer(k int, crashes int, maxH int, withProposals bool, symTime bool) {
+	vpC04SignerOpt(k, crashes, 0, maxH, withProposals, symTime)
+}
+
+// ioFaults > 0: up to that many writes of the sign-state file fail with an error (disk full, I/O
+// error); the signer is expected to die rather than release a signature it could not record, and the
+// process is then restarted from what is on disk.
+func vpC04SignerOpt(k int, crashes int, ioFaults int, maxH int, withProposals bool, symTime bool) {
 	dir := vp.TempDir()
 	keyF, stateF := dir+"/priv_validator_key.json", dir+"/priv_validator_state.json"
 	priv := ed25519.GenPrivKeyFromSecret([]byte("vp-c04"))
@@ -66,6 +73,7 @@ func vpC04Signer(k int, crashes int, maxH int, withProposals bool, symTime bool)
 	pub := priv.PubKey()
 	var rels []vpRelease
 	vp.CrashPoints(crashes)
+	vp.IOFaults(ioFaults)
 	for q := 0; q < k; q++ {
 		h := int64(vp.Range("height", 1, maxH))
 		r := int32(vp.Range("round", 0, 1))
@@ -83,10 +91,15 @@ func vpC04Signer(k int, crashes int, maxH int, withProposals bool, symTime bool)
 			kinds = 3
 		}
 		kind := vp.Choice("kind", kinds)
+		died := false
 		func() {
 			defer func() {
 				if rec := recover(); rec != nil && !vp.Crashed() {
-					panic(rec)
+					if ioFaults == 0 {
+						panic(rec)
+					}
+					died = true // the signer gave up (it panics when it cannot save its state)
+					vp.Reach("died-on-write-error?")
 				}
 			}()
 			switch kind {
@@ -122,6 +135,8 @@ func vpC04Signer(k int, crashes int, maxH int, withProposals bool, symTime bool)
 		if restart {
 			vp.Reach("crashed?")
 			vp.Reboot()
+		} else if died {
+			restart = true
 		} else {
 			// whatever was released is already durable: a fresh load sees the same last-sign state
 			disk := LoadFilePV(keyF, stateF)
@@ -136,11 +151,13 @@ func vpC04Signer(k int, crashes int, maxH int, withProposals bool, symTime bool)
 	}
 }
 
-func VP_C04_Signer_k2()        { vpC04Signer(2, 0, 1, true, false) }
-func VP_C04_Signer_k3()        { vpC04Signer(3, 0, 1, true, false) }
-func VP_C04_Signer_k3_h2()     { vpC04Signer(3, 0, 2, true, false) }
-func VP_C04_Signer_k2_crash1() { vpC04Signer(2, 1, 1, true, false) }
-func VP_C04_Signer_k3_crash1() { vpC04Signer(3, 1, 1, true, false) }
-func VP_C04_Signer_k3_crash2() { vpC04Signer(3, 2, 1, false, false) }
-func VP_C04_Signer_k2_symts()  { vpC04Signer(2, 0, 1, true, true) }
+func VP_C04_Signer_k2()              { vpC04Signer(2, 0, 1, true, false) }
+func VP_C04_Signer_k3()              { vpC04Signer(3, 0, 1, true, false) }
+func VP_C04_Signer_k3_h2()           { vpC04Signer(3, 0, 2, true, false) }
+func VP_C04_Signer_k2_crash1()       { vpC04Signer(2, 1, 1, true, false) }
+func VP_C04_Signer_k3_crash1()       { vpC04Signer(3, 1, 1, true, false) }
+func VP_C04_Signer_k3_crash2()       { vpC04Signer(3, 2, 1, false, false) }
+func VP_C04_Signer_k2_ioerr()        { vpC04SignerOpt(2, 0, 1, 1, true, false) }
+func VP_C04_Signer_k3_ioerr()        { vpC04SignerOpt(3, 0, 1, 1, true, false) }
+func VP_C04_Signer_k2_symts()        { vpC04Signer(2, 0, 1, true, true) }
 func VP_C04_Signer_k2_crash1_symts() { vpC04Signer(2, 1, 1, false, true) }
